@@ -83,7 +83,7 @@ def teardown(ctx):
     contracts.detach_all()
 
 
-def make(ctx, rng, kind):
+def make(ctx, rng, kind, units=1.0):
     aa = ctx.aa
     H, W = int(rng.integers(3, 9)), int(rng.integers(3, 10))
     for _ in range(20):
@@ -105,6 +105,7 @@ def make(ctx, rng, kind):
     osamp = aa.OverSamplerUniform(mask=mask, sub_size=aa.Array2D(values=subs.astype(int), mask=mask))
     g = _np(osamp.over_sampled_grid).copy()
     src, dk = gen_aa.distort(rng, g, strength=float(rng.uniform(0.05, 0.4)))
+    src = src * units              # the source plane expressed in other units (e.g. radians instead of arc-seconds)
     if kind == "rect":
         shape = (int(rng.integers(3, 8)), int(rng.integers(3, 6)))
         if rng.random() < 0.5:
@@ -117,13 +118,13 @@ def make(ctx, rng, kind):
         spread = float(rng.choice([0.7, 1.0, 1.2, 1.5]))
         V = gen_aa.delaunay_vertices(rng, lo, hi, nv, spread=spread)
         if len(V) < 4:
-            V = gen_aa.delaunay_vertices(rng, lo - 1, hi + 1, 6, spread=1.0)
+            V = gen_aa.delaunay_vertices(rng, lo - units, hi + units, 6, spread=1.0)
         mesh = aa.Mesh2DDelaunay(values=V.copy())
     srcg = aa.Grid2DIrregular(values=src.copy())
     adapt = aa.Array2D(values=np.exp(rng.uniform(0.0, np.log(50.0), size=n)) * 0.1, mask=mask)      # non-uniform, positive
     mg = aa.MapperGrids(mask=mask, source_plane_data_grid=srcg, source_plane_mesh_grid=mesh, adapt_data=adapt)
     mp = aa.Mapper(mapper_grids=mg, over_sampler=osamp, regularization=aa.reg.Constant(coefficient=1.0))
-    return dict(m=m, fam=fam, ps=ps, origin=origin, subs=subs, submode=submode, src=src, dk=dk, mesh=mesh, V=V, mapper=mp, kind=kind)
+    return dict(m=m, fam=fam, ps=ps, origin=origin, subs=subs, submode=submode, src=src, dk=dk, mesh=mesh, V=V, mapper=mp, kind=kind, units=units)
 
 
 def run_case(ctx, i):
@@ -131,7 +132,9 @@ def run_case(ctx, i):
     if not ctx.begin("map:%d" % i):
         return
     kind = "rect" if i % 2 == 0 else "del"
-    ok, c = ctx.guarded("mapper.construct", lambda: make(ctx, rng, kind))
+    # every 4th Delaunay case: source-plane coordinates in other units (interpolation weights are scale free)
+    units = float(10.0 ** rng.uniform(-7, 2)) if (kind == "del" and i % 8 == 5) else 1.0
+    ok, c = ctx.guarded("mapper.construct", lambda: make(ctx, rng, kind, units))
     if not ok:
         return
     mp, src, subs, m = c["mapper"], c["src"], c["subs"], c["m"]
@@ -203,14 +206,14 @@ def run_case(ctx, i):
             if best[q] > 1e-9:
                 interp = True
                 good = (sz == 3 and tuple(sorted(int(v) for v in idx)) in simp and (w >= -1e-12).all() and abs(w.sum() - 1) <= 1e-9
-                        and float(np.abs(w @ V[idx] - src[q]).max()) <= 1e-9 * max(1.0, ext))
+                        and float(np.abs(w @ V[idx] - src[q]).max()) <= 1e-9 * ext)
                 nb3 += 1
                 ctx.check(good, "sub.delaunay", sub_index=q, point=src[q], vertices=idx, weights=w,
                           reproduced=lambda: (w @ V[idx]) if sz == len(w) and sz > 0 else None, vertex_coords=lambda: V[idx], **W)
             elif best[q] < -1e-9:
                 d2 = ((V - src[q]) ** 2).sum(1)
                 srt = np.sort(d2)
-                if len(srt) > 1 and srt[1] - srt[0] <= 1e-9 * max(1.0, srt[0]):
+                if len(srt) > 1 and srt[1] - srt[0] <= 1e-9 * max(ext * ext, srt[0]):
                     ctx.skipped["outside_hull:nearest_vertex_tie"] += 1
                     continue
                 nb1 += 1
@@ -266,6 +269,8 @@ def run_case(ctx, i):
     cls = ["kind:" + kind, "sub:" + c["submode"], "mask:" + c["fam"], "distortion:" + c["dk"]]
     if kind == "rect" and W["mesh_shape"][0] != W["mesh_shape"][1]:
         cls.append("nonsquare_mesh")
+    if c["units"] != 1.0:
+        cls = list(cls) + ["source_plane_units:1e%d" % int(np.floor(np.log10(c["units"])))]
     ctx.case(m, subs, src, kind, nontrivial=(used >= 2 and (subs.max() > 1 or interp)), cls=cls,
              sample=lambda: {"kind": kind, "mask": m.astype(int).tolist(), "sub_sizes": subs.tolist(), "mesh_pixels": P,
                              "source_points": nsub, "distortion": c["dk"]})
